@@ -15,4 +15,5 @@ for f in glob.glob(f"{root}/replay/{pkg}/*_test.go"):
     ov["Replace"][f"{repo}/{pkg}/{os.path.basename(f)}"]=f
 json.dump(ov,open(f"{scr}/ov.json","w"))
 PY
-cd $repo/$pkg && go test -overlay "$scr/ov.json" -vet=off -count=1 -timeout 120s -v -run "$re" "$@" . 2>&1
+race=""; case "$re" in *TestRace*) race="-race";; esac
+cd $repo/$pkg && go test $race -overlay "$scr/ov.json" -vet=off -count=1 -timeout 120s -v -run "$re" "$@" . 2>&1
